@@ -384,6 +384,11 @@ class ShardedScale(ShardedScaleBase):
                  **kwargs):
         super().__init__(key, shard_spec, shard_volume_spec)
         self.base_dir = pathlib.Path(base_dir) / key
+        # The scale key comes from the info file: it must not lead outside of
+        # the dataset directory (same rule as for file names)
+        if ".." in self.base_dir.relative_to(base_dir).parts:
+            raise ValueError("only scale keys pointing under base_dir are "
+                             "accepted")
         self.shard_dict: Dict[np.uint64, Shard] = {}
         self.kwargs = kwargs
 
